@@ -391,7 +391,7 @@ def run(ctx):
 
 
 def _run(ctx):
-    n = 2000 if not ctx.thorough else 100000
+    n = 2000 if not ctx.thorough else 50000
     idx = 0
     for i in range(n):
         if not ctx.mine(i):
@@ -403,11 +403,11 @@ def _run(ctx):
                 if thr == 2048 and mode == "char" and i % 5:
                     continue  # long flush tail, character by character: sampled
                 one_case(ctx, {"i": i, "thr": thr, "c": c, "cutmode": mode})
-    for i in range(800 if not ctx.thorough else 40000):
+    for i in range(800 if not ctx.thorough else 20000):
         if ctx.mine(i):
             isolation_case(ctx, i)
             ctx.case_fast(("isolation", i), nontrivial=True)
-    for i in range(1200 if not ctx.thorough else 60000):
+    for i in range(1200 if not ctx.thorough else 30000):
         if ctx.mine(i):
             transport_junk_case(ctx, i)
             ctx.case_fast(("transport-junk", i), nontrivial=True)
